@@ -95,18 +95,6 @@ impl<T: Lin + Send + 'static, O: Operator<Out = T>> Operator for Probe<T, O> {
         rec::with(|r| {
             r.probes.entry((id, coord)).or_default();
             self.yield_permille = r.probe_yield;
-            if let Some(c) = &r.crash {
-                if c.probe == id {
-                    // ordinal among the replicas of this probe on *all* hosts, in setup order
-                    let ord = r
-                        .probes
-                        .keys()
-                        .filter(|(p, _)| *p == id)
-                        .position(|(_, c2)| *c2 == coord)
-                        .unwrap_or(0) as u32;
-                    let _ = ord;
-                }
-            }
         });
     }
 
@@ -137,7 +125,7 @@ impl<T: Lin + Send + 'static, O: Operator<Out = T>> Operator for Probe<T, O> {
                 vt,
             });
             match &r.crash {
-                Some(c) if c.probe == pid && !r.crash_fired => {
+                Some(c) if r.n_probes > 0 && c.probe % r.n_probes == pid && !r.crash_fired => {
                     // replica ordinal = rank of this coord among the coords registered for the probe
                     let ord = r
                         .probes
@@ -150,6 +138,7 @@ impl<T: Lin + Send + 'static, O: Operator<Out = T>> Operator for Probe<T, O> {
                         && ((kind <= K_TS && data_seen == c.nth) || (kind == K_FAR && data_seen <= c.nth));
                     if hit {
                         r.crash_fired = true;
+                        r.crash_site = Some((pid, coord, data_seen));
                     }
                     hit
                 }
